@@ -1,7 +1,7 @@
 ID = 'C12'
 GROUPS = ['common']
 CXX_SOURCES = []
-SPEC_KEYS = ['conc', 'ps', 'dup', 'ooo', 'bad', 'lost', 'rj', 'dv', 'oof', 'fatal']
+SPEC_KEYS = ['conc', 'ps', 'dup', 'ooo', 'bad', 'lost', 'rj', 'dv', 'comp', 'oof', 'fatal']
 INTERNAL_KEYS = []
 PROC_TIMEOUT = 900
 
@@ -16,8 +16,11 @@ PROC_TIMEOUT = 900
 #              callback performs ops | F(ops) full discovery | I(ops) incremental discovery |
 #              D reply ; the underlying controller answers its oldest outstanding request |
 #              E the underlying controller finishes its oldest outstanding discovery
-#   The controller is destroyed after the last op.
-# Result keys: t = per-top-level-op trace of calls reaching the underlying controller (S<id>, X<full>) and of
+#   The controller is destroyed after the last op; the completion callbacks the destructor runs are live
+#   (S/P/R are executed; F/I/D/E are not: the derived part of the object is gone, the underlying controller does
+#   not answer a dying controller).
+# Result keys: comp = every completion in order as id:kind:status:response-type:data (property level: exactly
+#   once, order, own reply, concatenation), t = per-top-level-op trace of calls reaching the underlying controller (S<id>, X<full>) and of
 #   user callbacks (C<id>:<kind>:<status>:<response>:f<frames>, K<did>@<run>), i = internal flags after
 #   every op, and the property verdicts computed independently by the harness from what the mock and the
 #   callbacks saw: conc (max calls outstanding at once on the underlying port), ps (calls made while
@@ -45,7 +48,7 @@ RULE = ('exhaustive top-level histories up to length 4 (quick) / 5 (thorough) ov
         'response type / NULL response, overflow part sizes around the 4096-byte limit, synchronous and '
         'deferred answers; non-trivial = at least one call reached the underlying controller and at least one '
         'request completed with an answer; distinct = distinct model output line')
-ASSUMPTIONS = ['callbacks do not call into the controller while it is being destroyed',
+ASSUMPTIONS = ['callbacks run by the destructor may submit, pause and resume, but do not start discovery on the dying object; the underlying controller does not answer during destruction',
                'the underlying controller runs each completion callback at most once per call',
                'operator new does not fail']
 TRUSTED = ['modelled rather than verified: QueueingRDMController.cpp (all methods of both classes, with '
@@ -55,7 +58,7 @@ TRUSTED = ['modelled rather than verified: QueueingRDMController.cpp (all method
 LEVEL_TEXT = ('Coq theorems over an executable small-step model (explicit call-stack agenda, scripted re-entrant '
               'callbacks, synchronous/deferred answers of the underlying controller) of both queueing controllers, '
               'proved by invariants for every configuration reachable by any history: the run always reaches '
-              'quiescence (no OutOfFuel, OLA_FATAL branch unreachable); every submitted request completes exactly '
+              'quiescence (no OutOfFuel, OLA_FATAL branch unreachable); every request, also one submitted from a callback the destructor runs, completes exactly '
               'once, queued requests in submission order, rejected exactly when the queue is full, non-answer '
               'completions carry FAILED_TO_SEND, answered ones are built only from answers to dispatches of that '
               'request; at most one request or discovery is outstanding at every instant; nothing is sent while '
@@ -65,7 +68,7 @@ LEVEL_TEXT = ('Coq theorems over an executable small-step model (explicit call-s
               'C++ by a differential correspondence check after every operation (ASan/UBSan build of the working tree).')
 LEVEL_NOTE = ('Trusted: Coq kernel, extraction (ExtrOcamlBasic), OCaml/C++ glue, generator coverage of the '
               'correspondence; model = code is validated by differential testing, not proved.  Destruction is '
-              'modelled only as the last operation of a history and with inert callbacks.  Discovery theorems are '
+              'modelled as the last operation of a history, with live callbacks (submit/pause/resume).  Discovery theorems are '
               'safety statements (which run serves which request), not liveness.  The verdict keys '
               'conc/ps/dup/ooo/bad/lost/rj/dv are computed independently by the C++ harness and by the extracted model.')
 TECHNIQUE = 'Coq invariant proofs on a hand-written executable state-machine model + extracted-model/implementation differential correspondence'
@@ -151,7 +154,7 @@ def scenarios(rng, n):
     for _ in range(n):
         mx = rng.choice([1, 2, 3, 4])
         discov = rng.choice([0, 1])
-        kind = rng.randrange(6)
+        kind = rng.randrange(7)
         ovf = lambda ln=None: rp(0, 3, fill=rng.randrange(256), ln=rng.choice([0, 1, 3]) if ln is None else ln)
         ack = lambda ln=None: rp(0, rng.choice([0, 0, 1, 2]), fill=rng.randrange(256),
                                  ln=rng.choice([0, 1, 3]) if ln is None else ln)
@@ -188,6 +191,13 @@ def scenarios(rng, n):
                            for _ in range(rng.randrange(2, 9)))
             ops += 'RE' + rng.choice(['', 'E', 'ED%s;' % ack()])
             yield '%d 1 %s %s %s' % (mx, rand_mscript(rng, rng.randrange(3)), rand_dscript(rng, rng.randrange(4)), ops)
+        elif kind == 5:    # destruction with live callbacks: queued / in-flight requests whose callbacks re-enter
+            inner = lambda d=0: rng.choice(['', 'S()', 'R', 'P', 'S()S()', 'RS()', 'S(R)', 'PS()R', 'F()', 'E', 'D%s;' % ack()] +
+                                           (['S(%s)' % inner(d + 1)] * 3 if d < 2 else []))
+            ops = rng.choice(['', 'P', 'F()' if discov else 'P', 'S()D%s;' % ovf()])
+            ops += ''.join('S(%s)' % inner() for _ in range(rng.randrange(1, mx + 2)))
+            ops += rng.choice(['', '', 'P', 'D%s;' % ovf(), 'R'])
+            yield '%d %d %s %s %s' % (mx, discov, rand_mscript(rng, rng.choice([0, 0, 2, 4])), rand_dscript(rng, 2), ops)
         else:              # queue limit
             ops = rng.choice(['', 'P']) + 'S()' * (mx + rng.choice([-1, 0, 1, 2]))
             ops += rng.choice(['', 'R', 'D%s;' % ack(), 'D%s;S()S()' % ack()])
